@@ -34,7 +34,9 @@ Definition obs_eqb (a b : obs) : bool :=
   | OZs x l, OZs y m => Bool.eqb x y && zlist_eqb l m
   | OEs x l, OEs y m => Bool.eqb x y && list_eqb pair_eqb l m
   | ORes x, ORes y => res_eqb (fun _ _ => true) x y
-  | OData5 x f, OData5 y g => res_eqb (fun _ _ => true) x y && option_eqb fault_eqb f g
+  (* a = the model, b = the observation; the raise statement that fired is read off the message: when the harness cannot classify the
+     message (wording changed) it sends None with an Err, and only the outcome class is compared *)
+  | OData5 x f, OData5 y g => res_eqb (fun _ _ => true) x y && match y, g with Err _, None => true | _, _ => option_eqb fault_eqb f g end
   | _, _ => false
   end.
 
